@@ -6,7 +6,8 @@ import OPM.Lemmas.RunRecords
 "Each run produces exactly one recent-run record and exactly one plot log, regardless of duplicated or resent
 run-started and run-stopped notifications and of engine disconnects during the run."
 
-Histories = arbitrary lists over {register e, disconnect e, RunStartedMsg e r, RunStoppedMsg e r} for any number of
+Histories = arbitrary lists over {register e, disconnect e, RunStartedMsg e r, RunStoppedMsg e r, aggregator restart,
+aggregator crash} for any number of
 engine ids `e` and any run ids `r` (also the same run id at two engines), starting from an empty database: every
 duplication, resend, reordering and disconnect pattern is such a list.  Rows are counted per run id
 (`runIds` = the run_id column), as the property observes them.
@@ -129,7 +130,8 @@ theorem unregistered_messages_are_dropped (g : Bool) (s : State) (e r : Nat) (h 
 /-- What an engine's entry looks like is changed only by that engine's own messages. -/
 theorem other_engines_untouched (g : Bool) (s : State) (op : Op) (e : Nat)
     (h : match op with
-      | .register x | .disconnect x | .start x _ | .stop x _ => x ≠ e) :
+      | .register x | .disconnect x | .start x _ | .stop x _ => x ≠ e
+      | .restart | .crash => False) :
     (step g s op).1.eng e = s.eng e := by
   cases op with
   | register x =>
@@ -148,21 +150,24 @@ theorem other_engines_untouched (g : Bool) (s : State) (op : Op) (e : Nat)
     simp only [step, storeRecentRun]
     repeat' split
     all_goals simp [setEng, hx]
+  | restart => exact h.elim
+  | crash => exact h.elim
 
 /-- **Disconnect during the run.** The run is parked at the disconnect; whatever arrives while the engine is away
-    (its own messages are dropped, other engines go on), the re-registration gives the run back. -/
+    (its own messages are dropped, other engines go on, the aggregator process may restart or crash), the
+    re-registration gives the run back. -/
 theorem run_restored_after_disconnect (before mid : List Op) (e r : Nat)
     (hrun : ((run true init before).eng e).run = some r) (hmid : ∀ op ∈ mid, op ≠ .register e) :
     ((run true init (before ++ .disconnect e :: mid ++ [.register e])).eng e).run = some r ∧
     ((run true init (before ++ .disconnect e :: mid ++ [.register e])).eng e).registered = true := by
   have hreg := registered_of_run before e r hrun
   have hpark : ∀ (mid : List Op) (s : State), (∀ op ∈ mid, op ≠ .register e) → (s.eng e).registered = false →
-      (run true s mid).eng e = s.eng e := by
+      (s.eng e).run = none → (run true s mid).eng e = s.eng e := by
     intro mid
     induction mid with
-    | nil => intro s _ _; rfl
+    | nil => intro s _ _ _; rfl
     | cons op ops ih =>
-      intro s hm hs
+      intro s hm hs hn
       rw [run_cons]
       have hstep : (step true s op).1.eng e = s.eng e := by
         have hne := hm op (by simp)
@@ -181,7 +186,13 @@ theorem run_restored_after_disconnect (before mid : List Op) (e r : Nat)
           by_cases hx : x = e
           · subst hx; rw [(step_unregistered true s x q hs).2.1]
           · exact other_engines_untouched _ _ _ _ hx
-      rw [ih _ (fun o ho => hm o (by simp [ho])) (by rw [hstep]; exact hs), hstep]
+        | restart => rw [(step_restart_eq true s).1 e]; simp [hs]
+        | crash =>
+          rw [(step_crash_eq true s).1 e]
+          cases hE : s.eng e
+          rw [hE] at hs hn
+          simp_all
+      rw [ih _ (fun o ho => hm o (by simp [ho])) (by rw [hstep]; exact hs) (by rw [hstep]; exact hn), hstep]
   have hshape : run true init (before ++ .disconnect e :: mid ++ [.register e]) =
       (step true (run true (step true (run true init before) (.disconnect e)).1 mid) (.register e)).1 := by
     rw [List.append_assoc, run_append, List.cons_append, run_cons, run_append]
@@ -189,7 +200,7 @@ theorem run_restored_after_disconnect (before mid : List Op) (e r : Nat)
   rw [hshape]
   have hd := (step_disconnect_eq true (run true init before) e).1 e
   simp only [hreg, and_self, if_true] at hd
-  have hm := hpark mid _ hmid (by rw [hd])
+  have hm := hpark mid _ hmid (by rw [hd]) (by rw [hd])
   have hr := (step_register_eq true (run true (step true (run true init before) (.disconnect e)).1 mid) e).1 e
   rw [hr, hm, hd]
   simp [hrun, restoredRun]
@@ -203,6 +214,35 @@ theorem run_open_across_disconnect_is_recorded (before mid after : List Op) (e q
   stopped_run_has_exactly_one_of_each _ after e q r (run_restored_after_disconnect before mid e r hrun hmid).1
 
 example : ∀ op ∈ [Op.stop 0 1, .start 0 2, .start 1 1, .disconnect 0], op ≠ Op.register 0 := by decide
+
+
+/-- **Aggregator restart or crash during the run.** The new process (same database) knows no engine; when the engine
+    registers again its run is given back — after a graceful restart from the row `shutdown()` wrote, after a crash
+    from the row the RunStartedMsg wrote — so the run is recorded at its end like any other
+    (`stopped_run_has_exactly_one_of_each` / `superseded_…` apply to the history continued from here). -/
+theorem run_survives_aggregator_restart (ops : List Op) (e r : Nat) (graceful : Bool)
+    (hrun : ((run true init ops).eng e).run = some r) :
+    let s' := run true init (ops ++ [if graceful then .restart else .crash, .register e])
+    (s'.eng e).run = some r ∧ (s'.eng e).registered = true := by
+  intro s'
+  have hg := good_run init ops good_init
+  have hreg := registered_of_run ops e r hrun
+  have hre := (hg.synced e r hreg).mp hrun
+  have hs' : s' = (step true (step true (run true init ops) (if graceful then .restart else .crash)).1 (.register e)).1 := by
+    simp only [s', run_append]; rfl
+  have hr := (step_register_eq true (step true (run true init ops) (if graceful then .restart else .crash)).1 e).1 e
+  rw [hs', hr]
+  cases graceful with
+  | true =>
+    have hd := (step_restart_eq true (run true init ops)).1 e
+    simp only [hreg, if_true] at hd
+    simp only [if_true, hd, and_self, restoredRun, hrun]
+  | false =>
+    have hd := (step_crash_eq true (run true init ops)).1 e
+    simp only [Bool.false_eq_true, if_false, hd, and_self, if_true, restoredRun, hre]
+
+example : ((run true init [.register 0, .start 0 4, .crash, .register 0, .stop 0 4]).recentRuns) = [(0, 4)] ∧
+    ((run true init [.register 0, .start 0 4, .restart, .register 0, .stop 0 4]).recentRuns) = [(0, 4)] := by decide
 
 /-- A disconnect during the run followed by the re-registration gives the run back (and no new rows). -/
 theorem run_survives_reconnect (ops : List Op) (e : Nat) (hreg : ((run true init ops).eng e).registered = true) :
